@@ -658,6 +658,16 @@ def chk_c17(what):
                 return x * 3 + k
             return (x, k)
 
+        # a call whose positional arguments are a prefix of the previous call's
+        def fd(x, y=10.0):
+            return x * y
+
+        for wrap in (cached, lambda h: named("n", cached(h))):
+            w = wrap(fd)
+            for call_args in ((3.0, 2.0), (3.0,), (3.0, 2.0), (4.0,), (4.0, 10.0), (4.0,)):
+                got, want = w(*call_args), fd(*call_args)
+                if got != want:
+                    return f"cached function called with {call_args} after a longer/shorter call returned {got!r} instead of {want!r}"
         seqs = [[1, 1, 2, 1, 2, 2], [np.array([1.0, 2.0]), np.array([1.0, 2.0]), np.array([1.0, 3.0]), np.array([1.0, 2.0, 3.0])], ["a", "a", "b"], [1, 1.0, True, 2]]
         for wrap in (cached, lambda h: named("n", cached(h)), lambda h: cached(serializable(h)), serializable):
             for seq in seqs:
@@ -707,6 +717,21 @@ def chk_c17(what):
                     ja.pop("name", None), jb.pop("name", None)
                     if not approx_eq(ja, jb):
                         return f"aggregator with string quantity {s!r} differs from the one with the equivalent function after filling x={x}, y={y}"
+        # record fields that shadow names pre-loaded into the evaluation namespace (math.*, numpy)
+        for s_, fn, rec in (
+            ("e + pi", lambda d: d["e"] + d["pi"], {"e": 3.0, "pi": 1.0}),
+            ("gamma * 2", lambda d: d["gamma"] * 2, {"gamma": 2.5}),
+            ("exp - inf", lambda d: d["exp"] - d["inf"], {"exp": 4.0, "inf": 1.0}),
+            ("np + 1", lambda d: d["np"] + 1, {"np": 6.0}),
+        ):
+            got = serializable(s_)(rec)
+            if got != fn(rec):
+                return f"string expression {s_!r} on record {rec} gives {got!r}, the function gives {fn(rec)!r} (a record field must shadow a namespace name)"
+            a, b = hg.Sum(s_), hg.Sum(fn)
+            a.fill(rec)
+            b.fill(rec)
+            if a.sum != b.sum:
+                return f"Sum({s_!r}) filled with {rec} holds {a.sum}, Sum(function) holds {b.sum}"
         # bare scalars: single-variable expressions
         for s, fn in (("x * 2", lambda v: v * 2), ("x + 1 > 2", lambda v: v + 1 > 2), ("sqrt(abs(x))", lambda v: math.sqrt(abs(v)))):
             w = serializable(s)
